@@ -251,7 +251,7 @@ class C15:
             inner = self._gen_inner(rng, t, cnt, 2)
             while inner[0] in ("bell", "capture"):
                 inner = self._gen_inner(rng, t, cnt, 2)
-            return ["ioerr", rng.choice(["write", "flush"]), inner]
+            return ["ioerr", rng.choice(["write", "flush", "write2"]), inner]
         if r < 0.88:
             cnt[0] += 1
             return ["markup", "K%d_%dz [bold]b[/bold] [link=https://e.x/?a=1&b=2]l[/link] \\[esc] &lt;" % (t, cnt[0])]
